@@ -38,7 +38,8 @@ def generate(ctx):
              "delay": delay, "delayed": (rng.random() < 0.5) if (delay and name in tr.HAS_DELAYED_FLAG) else False,
              "reduction": rng.choice(["sum", "sum", "mean", "amax"]), "reward": rng.choice(["scalar+", "scalar-", "tensor", "tensor"]),
              "scale": rng.choice([1.0, 0.5, 2.0]), "p": rng.choice([0.3, 0.5, 0.8]), "seed": rng.randrange(1 << 30),
-             "reassign_delays": bool(delay) and rng.random() < 0.4}
+             "reassign_delays": bool(delay) and rng.random() < 0.4, "per_cell": rng.random() < 0.4,
+             "lr_a3": rng.choice([0.3, -0.3, 1.5, -1.5]), "lr_b3": rng.choice([0.2, -0.2, 1.2, -1.2])}
         if d["reward"] == "tensor":
             d["reduction"] = "sum"   # per-sample signals split the batch by sign: only a sum is reduction-order free
         yield d
@@ -56,16 +57,21 @@ def run_trainer_history(ctx, desc, prop, pre_seq, post_seq, rewards, extra_check
     name = desc["trainer"]
     a, b = SIGNS[desc["signs"]]
     hyper = {"lr_a": a, "lr_b": b, "trace_mode": desc.get("trace_mode", "cumulative"), "delayed": desc.get("delayed", False)}
+    for k in ("lr_a3", "lr_b3", "tensor_kwargs"):
+        if k in desc:
+            hyper[k] = desc[k]
     kind = desc.get("conn", "dense1")
     conn_kind = "dense" if kind == "dense1" else kind
     red = desc.get("reduction", "sum")
     try:
         h = tr.Harness(name, conn_kind, dt=desc.get("dt", 1.0), B=desc.get("B", 1), delay_steps=desc.get("delay"),
                        seed=desc.get("seed", 0), batch_reduction=RED[red], hyper=hyper, dtype=torch.float64,
-                       max_delay_steps=(3 if desc.get("delay") else None))
+                       max_delay_steps=(3 if desc.get("delay") else None), per_cell=desc.get("per_cell", False))
     except Exception as e:  # noqa: BLE001
         ctx.violation(ctx.exc_signature(e, f"construct.{name}"), f"{type(e).__name__}: {str(e)[:160]}", desc)
         return False
+    if desc.get("per_cell"):
+        ctx.count("per_cell_override_cases")
     orc = tr.Oracle(name, conn_kind, h.conn, h.dt, hyper, red)
     g = torch.Generator().manual_seed(desc.get("seed", 0) + 3)
     tagd = f"delay{'-' if not desc.get('delay') else ('T' if desc.get('delayed') else 'F')}"
@@ -85,7 +91,7 @@ def run_trainer_history(ctx, desc, prop, pre_seq, post_seq, rewards, extra_check
             ctx.violation(ctx.exc_signature(e, f"step.{name}.{conn_kind}.{tagd}"), f"{type(e).__name__}: {str(e)[:200]}", rdesc)
             return False
         epos, eneg = orc.step(pre, post, delays, reward, desc.get("scale", 1.0))
-        ctx.case(f"{prop}/{name}/{kind}/{tagd}/signs{desc['signs']}/{hyper['trace_mode']}/{red}/B{desc.get('B', 1)}/"
+        ctx.case(f"{prop}/{name}/{kind}/{tagd}/signs{desc['signs']}/{hyper['trace_mode']}/{red}/B{desc.get('B', 1)}/pc{int(bool(desc.get('per_cell')))}/"
                  f"{desc.get('reward', '-')}/{'pairs' if (epos.any() or eneg.any()) else 'nopairs'}")
         ctx.count("trainer_steps_checked")
         if epos.any() or eneg.any():
